@@ -68,6 +68,8 @@ ShiftEv(t) ==
   IF t.code # want THEN "REJECT ShiftCode" \o kf ELSE
   IF t.text # ToText(Dec(want)) THEN "REJECT ShiftText" \o kf ELSE
   IF ~(t.eq /\ t.hasheq) THEN "REJECT ShiftEqualHash" \o kf ELSE
+  \* an operation IS the identity exactly when it equals x,y,z modulo the lattice (whatever noise its translation carries)
+  IF t.isid # (want = IdentityCode) THEN "REJECT ShiftIsIdentity" ELSE
   "ACCEPT"
 
 ApplyEv(t) ==
